@@ -292,7 +292,51 @@ func genProgram(t *rapid.T, fields map[string]any) ([]*gen.Node, *sgen.G) {
 			return gen.NIf([]*gen.Node{gen.NBool(true)}, [][]*gen.Node{{gen.NSet("il", l), gen.NSet("iv", gen.NSlice(gen.NIdent("il"), key, nil, nil, false))}}, nil, false)
 		}
 	}
-	g.Calls = []func(*sgen.G, int) *gen.Node{builtin, builtin, builtin, voidUse, keyUse, indexUse}
+	// storeThenUse writes a value into a point key (incl. collections JSON cannot encode: inf / nan inside) and reads the key back
+	// in the positions that care about its run-time type
+	storeThenUse := func(g *sgen.G, d int) *gen.Node {
+		k := rapid.SampledFrom(sgen.KeyPool[:6]).Draw(g.T, "stkey")
+		g.Feat["store-then-typed-use"] = true
+		var v *gen.Node
+		switch rapid.IntRange(0, 6).Draw(g.T, "stval") {
+		case 0:
+			v = gen.NList(gen.NInt(1), gen.NBin("*", gen.NFloat(1e308), gen.NFloat(10)))
+		case 1:
+			v = gen.NMap(gen.NStr("a"), gen.NIdent("nan"))
+		case 2:
+			v = gen.NList(gen.NList(gen.NIdent("inf")))
+		case 3:
+			v = gen.NAttr(gen.NIdent("a"), gen.NIdent("b"))
+		case 4:
+			v = g.LitOf(sgen.TList, 2)
+		case 5:
+			v = g.LitOf(sgen.TMap, 2)
+		default:
+			v = g.ExprOf(sgen.TAny, 2)
+		}
+		store := gen.NCall("add_key", gen.NIdent(k), v)
+		if rapid.IntRange(0, 3).Draw(g.T, "viatag") == 0 {
+			store = gen.NCall("set_tag", gen.NIdent(k), gen.NStr("tv"))
+		}
+		var use *gen.Node
+		kn := gen.NIdent(k)
+		switch rapid.IntRange(0, 5).Draw(g.T, "stuse") {
+		case 0:
+			use = gen.NSet("n", gen.NCall("len", kn))
+		case 1:
+			use = gen.NSet("s", gen.NSlice(kn, gen.NInt(0), gen.NInt(1), nil, false))
+		case 2:
+			use = gen.NForIn("ch", kn, []*gen.Node{gen.NSet("last", gen.NIdent("ch"))})
+		case 3:
+			use = gen.NSet("s", gen.NBin("in", gen.NStr("a"), kn))
+		case 4:
+			use = gen.NCall("uppercase", kn)
+		default:
+			use = gen.NSet("s", gen.NBin("+", kn, gen.NStr("x")))
+		}
+		return gen.NIf([]*gen.Node{gen.NBool(true)}, [][]*gen.Node{{store, use}}, nil, false)
+	}
+	g.Calls = []func(*sgen.G, int) *gen.Node{builtin, builtin, builtin, voidUse, keyUse, indexUse, storeThenUse}
 	prog := g.Program(rapid.IntRange(1, 8).Draw(t, "size"), rapid.IntRange(1, 3).Draw(t, "nest"))
 	return prog, g
 }
@@ -339,7 +383,7 @@ func TestBuiltinShapes(t *testing.T) {
 
 func TestFixedHostile(t *testing.T) {
 	progs := []string{
-		"a = [1,2,3]\nb = a[2:1]", "l = [1,2,3]\nx = l[3]", "l = [1,2,3]\nl[3] = 1", "l = [1,2,3]\nx = l[-4]", "l = []\nx = l[0]", "l = [[1]]\nl[0][1] += 1", "m = {\"k\": [1]}\nx = m[\"k\"][1]", "x = \"abc\"[1:3:9223372036854775807]", ".[0]", "a = .[0] + 1", ".[0] = 1", "a.b", "a = a.b", "l = [1]\nx = l[-9223372036854775807 - 1]",
+		"a = [1,2,3]\nb = a[2:1]", "inf2 = 1.0e308 * 10.0\nadd_key(k, [1, inf2])\nn = len(k)", "add_key(k, {\"a\": nan})\nx = k[0:1]", "l = [1,2,3]\nx = l[3]", "l = [1,2,3]\nl[3] = 1", "l = [1,2,3]\nx = l[-4]", "l = []\nx = l[0]", "l = [[1]]\nl[0][1] += 1", "m = {\"k\": [1]}\nx = m[\"k\"][1]", "x = \"abc\"[1:3:9223372036854775807]", ".[0]", "a = .[0] + 1", ".[0] = 1", "a.b", "a = a.b", "l = [1]\nx = l[-9223372036854775807 - 1]",
 		"rename(message, a)\nn = len(message)", "rename(a, message)\nuppercase(a)", "a = 9223372036854775807 + 1\nb = (-9223372036854775807 - 1) / (0 - 1)\nc = (-9223372036854775807 - 1) % (0 - 1)",
 		"x = [1,2][::-9223372036854775807 - 1]", "x = \"abc\"[-9223372036854775807 - 1:9223372036854775807:9223372036854775807]",
 		"for x in message { add_key(message, x) }", "m = {}\nm[\"a\"] = m\nadd_key(k, m)\nb = m == m", "l = [1]\nl[0] = l\nprobe(\"l\", l)\nn = len(l)",
